@@ -13,7 +13,7 @@ TRUSTED_COMMON = [
 
 PROPS = {
     "C15": {
-        "modules": ["CM.Props.C15"],
+        "modules": ["CM.Props.C15", "CM.Props.C15Rec"],
         "level": "proof",
         "design_ref": "DESIGN.md §6 C15",
         "technique": "Lean 4 theorems over definitions regenerated from the Go source (decide +kernel over all 256 bytes; induction over lines) + line-protocol correspondence + spec oracle",
@@ -64,7 +64,7 @@ PROPS["C11"] = {
     "design_ref": "DESIGN.md §6 C11",
     "technique": "Lean 4 invariant proof: the Go closerLoop with its openersBottom cache = CommonMark's process-emphasis without the cache, for every delimiter stack (impl_eq_spec), over the regenerated isEmphasisDelimiterMatch / openersBottomIndex; flags_eq_spec; + structure correspondence on all strings <= 8/9 over {*,_,a,SP,.} and Unicode neighbours",
     "text": "Model.processEmphasis true is the loop of inlines.go (stack indices, per-class lower bounds, clamping after deletions, original length n for the multiple-of-3 rule, current length from the node); it calls the Lean terms regenerated from the Go source for isEmphasisDelimiterMatch and openersBottomIndex. impl_eq_spec proves, for every stack (any mixture of *, _, link delimiters, any lengths and flags) and every stack_bottom, that it yields the same match events as the same procedure searching down to stack_bottom every time - i.e. CommonMark 0.30's process-emphasis without openers_bottom. The proof is the invariant 'below bound k nothing matches a closer of class k' (Inv), preserved by every branch including deletions (procStep_inv), plus match_depends_on_closer_class proved over the generated predicates. flags_eq_spec: the assigned can-open/can-close flags equal the spec's left/right-flanking rules for every pair of neighbouring code points. Tie: the implementation's emphasis tree for every string <= 8 (quick) / 9 (thorough) over {*,_,a,SP,.}, <= 5/6 with a non-ASCII letter, NBSP and non-ASCII punctuation, and random lines is compared with the model's and the specification's; the generated predicates are compared on their whole finite domain.",
-    "note": "The tree surgery (wrap/remove) is modelled by applyEvent on a flat node list and tied by correspondence only; unicode.Is/In enter as parameters (UExt) whose values for the runes of each input are supplied by the real library at run time. The fuel of procLoop (2*total length + 2*stack size + 2) is shown adequate by the correspondence run, not yet by a theorem.",
+    "note": "The tree surgery (wrap/remove) is modelled by applyEvent on a flat node list and tied by correspondence only; unicode.Is/In enter as parameters (UExt) whose values for the runes of each input are supplied by the real library at run time. The fuel of procLoop (2*total length + 2*stack size + 2) is proved adequate (fuel_irrelevant, loop_stops_at_break: a strictly decreasing measure), i.e. the Go loop terminates on every stack.",
 }
 
 PROPS["C12"] = {
@@ -72,7 +72,7 @@ PROPS["C12"] = {
     "level": "other",
     "design_ref": "DESIGN.md §6 C12",
     "technique": "Lean 4 theorems for the extraction clause (first_definition_wins, earlier_block_wins, extract_is_preorder: all forests) + correspondence of Extract and label normalisation with the Lean models + Lean label specification as oracle (exhaustive short labels, fold-heavy random labels) + generated documents with competing definitions + closure oracles on the implementation",
-    "text": "Clause (b): Model.extractNode/extractAll is ReferenceMap.Extract / Parse's loop (explicit-stack DFS read recursively, tied by comparing the real map, in insertion order, with the model's on every generated document); first_definition_wins and earlier_block_wins prove for every forest that the value of a key is that of the first definition in document pre-order, containers included. Clause (a): Model.normalizeLabel (collapse, trim spaces, fold) is compared with VerifNormalizeLabel and with Spec.normalizeLabelSpec (fold of the words joined by single spaces) on all labels <= 5/6 over {a,B,ß,SP,TAB,LF,NBSP,\\]} and on random labels with multi-character and final-sigma folds; the equality model = spec is a stated target, not yet a theorem. Clause (c) and the matching relation are decided on generated documents: a use resolves iff the specification's normal forms of use and a recognised definition agree, the first matching definition supplies the destination, every reference node names a key, keys are fixed points of normalisation, the map equals re-extraction. Hence 'other'.",
+    "text": "Clause (b): Model.extractNode/extractAll is ReferenceMap.Extract / Parse's loop (explicit-stack DFS read recursively, tied by comparing the real map, in insertion order, with the model's on every generated document); first_definition_wins and earlier_block_wins prove for every forest that the value of a key is that of the first definition in document pre-order, containers included. Clause (a): Model.normalizeLabel (collapse, trim spaces, fold) is compared with VerifNormalizeLabel and with Spec.normalizeLabelSpec (fold of the words joined by single spaces) on all labels <= 5/6 over {a,B,ß,SP,TAB,LF,NBSP,\\]} and on random labels with multi-character and final-sigma folds; the equality model = spec is the theorem normalize_eq_spec (every label, every fold function), with normalize_ws_variants, wsNormal_idem and wsNormal_fixed_iff. Clause (c) and the matching relation are decided on generated documents: a use resolves iff the specification's normal forms of use and a recognised definition agree, the first matching definition supplies the destination, every reference node names a key, keys are fixed points of normalisation, the map equals re-extraction. Hence 'other'.",
     "note": "cases.Fold enters as a per-rune table computed by the real library for the runes of each label (context-free folding is assumed and would show as a correspondence difference). Clause (c) needs the inline parser model.",
 }
 
